@@ -61,10 +61,14 @@ class World:
         self.fail_p = {'none': 0.0, 'light': 0.04, 'heavy': 0.3, 'other': 0.04}.get(self.fail, 0.0)
         self.pattern = {}            # ind_id -> list of outcomes (explicit plan, C06)
         self.params = []
+        # names: x0.. / f0.. or words that are NOT in string order (a store that returns definitions sorted by name is wrong)
+        worded = D.weighted('cfg', 'names', (2, 1)) == 1
+        pnames = ('radius', 'angle', 'width', 'depth', 'height') if worded else tuple('x%d' % i for i in range(5))
+        cnames = ('mass', 'efficiency', 'loss', 'area') if worded else tuple('f%d' % j for j in range(4))
         for i in range(self.n):
             kind = boxk if boxk != 'mixed' else D.pick('cfg', ('boxi', i), BOX_KINDS)
             lb, ub = BOXES[kind]
-            p = {'name': 'x%d' % i, 'bounds': [lb, ub]}
+            p = {'name': pnames[i], 'bounds': [lb, ub]}
             prec = precision if precision is not None else D.weighted('cfg', ('prec', i), (5, 1, 1, 1))
             if prec:
                 # declared coarse precisions: a binary fraction of the width, and 5*10^k / 4*10^k grids (not powers of ten)
@@ -77,7 +81,7 @@ class World:
         self.costs_def = []
         for j in range(self.m):
             mx = maximise if maximise is not None else bool(D.weighted('cfg', ('max', j), (2, 1)))
-            self.costs_def.append({'name': 'f%d' % j, 'criteria': 'maximize' if mx else 'minimize'})
+            self.costs_def.append({'name': cnames[j], 'criteria': 'maximize' if mx else 'minimize'})
         self.signs = [(-1 if c['criteria'] == 'maximize' else 1) for c in self.costs_def]
         self.centres = [[0.25 * j + 0.5 * D.unit('cfg', ('c', j, i)) for i in range(self.n)]
                         for j in range(self.m)]
